@@ -178,7 +178,7 @@ Definition write_action (v : value) : tres prim :=
   | _ => ill_typed
   end.
 
-(** * NameTree<Primitive> (object/types.rs): the reader; the writer is `todo!()` *)
+(** * NameTree<Primitive> (object/types.rs) *)
 Definition k_Limits : bytes := [76; 105; 109; 105; 116; 115].
 Definition k_Kids : bytes := [75; 105; 100; 115].
 Definition k_Names : bytes := [78; 97; 109; 101; 115].
@@ -220,8 +220,34 @@ Definition read_nametree (rs : N -> tres prim) (p : prim) : tres value :=
   | None, None => TOk (VPair limits (VDirect (VVec [])))
   end.
 
-Definition site_nametree_todo : N := 1199.    (* object/types.rs: todo!("impl ObjectWrite for NameTree") *)
-Definition write_nametree (v : value) : tres prim := TPanic site_nametree_todo.
+(* object/types.rs: impl ObjectWrite for NameTree (after fix C15-c: the writer mirrors NumberTree's) *)
+Fixpoint write_names (l : list value) : tres (list prim) :=
+  match l with
+  | [] => TOk []
+  | VPair (VStr n) (VPrim v) :: t => tdo r <- write_names t; TOk (PStr n :: v :: r)
+  | _ => ill_typed
+  end.
+Fixpoint write_kids (l : list value) : tres (list prim) :=
+  match l with
+  | [] => TOk []
+  | VRef i g :: t => tdo r <- write_kids t; TOk (PRef i g :: r)
+  | _ => ill_typed
+  end.
+Definition write_nametree (v : value) : tres prim :=
+  match v with
+  | VPair limits node =>
+    tdo d0 <- (match limits with
+               | VNone => TOk []
+               | VSome (VPair (VStr x) (VStr y)) => TOk (dinsert k_Limits (PArr [PStr x; PStr y]) [])
+               | _ => ill_typed
+               end);
+    match node with
+    | VSome (VVec l) => tdo ns <- write_names l; TOk (PDict (dinsert k_Names (PArr ns) d0))
+    | VDirect (VVec l) => tdo ks <- write_kids l; TOk (PDict (dinsert k_Kids (PArr ks) d0))
+    | _ => ill_typed
+    end
+  | _ => ill_typed
+  end.
 
 (** * PagesRc (object/types.rs): an RcRef<PagesNode> that must be a page-tree node.  Modelled on the domain the
       generators use — the reference designates a minimal page-tree node << /Type /Pages /Kids [] /Count 0 >> — together
@@ -267,6 +293,125 @@ Definition read_pagesrc (rs : N -> tres prim) (p : prim) : tres value :=
 Definition write_pagesrc (v : value) : tres prim :=
   match v with VIndirect i g _ => TOk (PRef i g) | _ => ill_typed end.
 
+
+(** * Encoding (encoding.rs): a font's /Encoding — a predefined name, or a dictionary with /BaseEncoding and the
+      /Differences array (ISO 32000-1 9.6.6.1, Table 114).  Value: VPair base (VVec [VPair (VInt code) (VName glyph) …]),
+      the HashMap<u32, SmallString> kept as the list sorted by code (the writer sorts it: `diff_list.sort()`). *)
+Definition hid_Encoding : N := 6.
+Definition k_BaseEncoding : bytes := [66; 97; 115; 101; 69; 110; 99; 111; 100; 105; 110; 103].
+Definition k_Differences : bytes := [68; 105; 102; 102; 101; 114; 101; 110; 99; 101; 115].
+Definition n_BaseEncodingTy : bytes := [66; 97; 115; 101; 69; 110; 99; 111; 100; 105; 110; 103].      (* the derived name enum BaseEncoding *)
+Definition n_NoneVariant : bytes := [78; 111; 110; 101].
+
+Definition base_enc : option nenum :=
+  match find_name ne_name n_BaseEncodingTy (nenums gen_schemas) 0 with Some (_, e) => Some e | None => None end.
+Fixpoint find_variant (v : bytes) (l : list (bytes * bytes)) (i : N) : option N :=
+  match l with [] => None | (vn, _) :: t => if beqb v vn then Some i else find_variant v t (i + 1) end.
+
+(* pdf_derive: impl_object_for_enum for BaseEncoding (as Derive.read at TNameEnum, over the hand resolver) *)
+Definition read_base_encoding (rs : N -> tres prim) (p : prim) : tres value :=
+  match base_enc with
+  | None => unmodelled
+  | Some e =>
+    tdo q <- (match p with PRef r _ => if name_enum_reader_resolves then rs r else TOk p | _ => TOk p end);
+    match q with
+    | PName n => match find_pair n (ne_pairs e) 0 with
+                 | Some k => TOk (VEnum k)
+                 | None => if ne_other e then TOk (VEnumOther n) else TErr (EBase c_UnknownVariant)
+                 end
+    | _ => unexpected
+    end
+  end.
+Definition write_base_encoding (v : value) : tres prim :=
+  match base_enc, v with
+  | Some e, VEnum k => match nth_error (ne_pairs e) (N.to_nat k) with Some (_, nm) => TOk (PName nm) | None => ill_typed end
+  | Some e, VEnumOther s => if ne_other e then TOk (PName s) else ill_typed
+  | None, _ => unmodelled
+  | _, _ => ill_typed
+  end.
+(* `None => BaseEncoding::None` *)
+Definition base_none : tres value :=
+  match base_enc with
+  | Some e => match find_variant n_NoneVariant (ne_pairs e) 0 with Some k => TOk (VEnum k) | None => unmodelled end
+  | None => unmodelled
+  end.
+
+Definition two32 : N := 4294967296.
+Definition u32_of_i32 (z : Z) : N := Z.to_N (z mod 4294967296).                         (* `code as u32` *)
+Definition i32_of_u32 (n : N) : Z := if n <? 2147483648 then Z.of_N n else (Z.of_N n - 4294967296)%Z.   (* `gid as i32` *)
+Definition wrapping_succ (n : N) : N := (n + 1) mod two32.                               (* gid.wrapping_add(1) *)
+
+(* HashMap::insert on the code-sorted list *)
+Fixpoint dins (c : N) (nm : bytes) (m : list (N * bytes)) : list (N * bytes) :=
+  match m with
+  | [] => [(c, nm)]
+  | (c', n') :: t => if c <? c' then (c, nm) :: m else if c =? c' then (c, nm) :: t else (c', n') :: dins c nm t
+  end.
+
+(* encoding.rs: the loop over the parts of /Differences *)
+Fixpoint read_diffs (l : list prim) (gid : N) (m : list (N * bytes)) : tres (list (N * bytes)) :=
+  match l with
+  | [] => TOk m
+  | PInt code :: t => read_diffs t (u32_of_i32 code) m
+  | PName nm :: t => read_diffs t (wrapping_succ gid) (dins gid nm m)
+  | _ :: _ => TErr (EBase c_Other)                      (* bail!("Unknown part primitive in dictionary") *)
+  end.
+
+Definition diffs_to_value (m : list (N * bytes)) : value :=
+  VVec (map (fun cn => VPair (VInt (Z.of_N (fst cn))) (VName (snd cn))) m).
+Fixpoint diffs_of_values (l : list value) : option (list (N * bytes)) :=
+  match l with
+  | [] => Some []
+  | VPair (VInt z) (VName n) :: t => match diffs_of_values t with Some r => Some ((Z.to_N z, n) :: r) | None => None end
+  | _ => None
+  end.
+Definition enc_value (b : value) (m : list (N * bytes)) : value := VPair b (diffs_to_value m).
+
+(* encoding.rs: impl Object for Encoding, the arms for a primitive that is not a reference *)
+Definition read_encoding_direct (rs : N -> tres prim) (p : prim) : tres value :=
+  let from_dict (d : dict) :=
+    tdo b <- (match dget k_BaseEncoding d with Some q => read_base_encoding rs q | None => base_none end);
+    tdo m <- (match dget k_Differences d with
+              | Some q => tdo a <- resolve_if_ref rs q; tdo arr <- into_array a; read_diffs arr 0 []
+              | None => TOk []
+              end);
+    TOk (enc_value b m) in
+  match p with
+  | PName _ => tdo b <- read_base_encoding rs p; TOk (enc_value b [])
+  | PDict d => from_dict d
+  | PStream d _ => from_dict d
+  | _ => TErr (EBase c_Other)                           (* bail!("Unknown element") *)
+  end.
+Definition read_encoding (rs : N -> tres prim) (p : prim) : tres value :=
+  match p with
+  | PRef r _ => tdo q <- rs r;
+                match q with PRef _ _ => TErr (EBase c_Other) | _ => read_encoding_direct rs q end
+  | _ => read_encoding_direct rs p
+  end.
+
+(* encoding.rs: impl ObjectWrite for Encoding — the run tracker `last: Option<u32>` *)
+Fixpoint write_diffs (m : list (N * bytes)) (last : option N) : list prim :=
+  match m with
+  | [] => []
+  | (c, nm) :: t =>
+    (if match last with Some n => n + 1 =? c | None => false end then [] else [PInt (i32_of_u32 c)])
+    ++ PName nm :: write_diffs t (Some c)
+  end.
+Definition write_encoding (v : value) : tres prim :=
+  match v with
+  | VPair b (VVec l) =>
+    match diffs_of_values l with
+    | None => ill_typed
+    | Some m =>
+      tdo bp <- write_base_encoding b;
+      match m with
+      | [] => TOk bp
+      | _ => TOk (PDict (dinsert k_Differences (PArr (write_diffs m None)) (dinsert k_BaseEncoding bp [])))
+      end
+    end
+  | _ => ill_typed
+  end.
+
 (** * the table *)
 Definition hand_read (i : N) (rs : N -> tres prim) (p : prim) : tres value :=
   if i =? hid_Date then read_date rs p
@@ -275,6 +420,7 @@ Definition hand_read (i : N) (rs : N -> tres prim) (p : prim) : tres value :=
   else if i =? hid_Action then read_action rs p
   else if i =? hid_NameTreePrim then read_nametree rs p
   else if i =? hid_PagesRc then read_pagesrc rs p
+  else if i =? hid_Encoding then read_encoding rs p
   else unmodelled.
 Definition hand_write (i : N) (v : value) : tres prim :=
   if i =? hid_Date then write_date v
@@ -283,5 +429,6 @@ Definition hand_write (i : N) (v : value) : tres prim :=
   else if i =? hid_Action then write_action v
   else if i =? hid_NameTreePrim then write_nametree v
   else if i =? hid_PagesRc then write_pagesrc v
+  else if i =? hid_Encoding then write_encoding v
   else unmodelled.
 Definition hands : hand := {| h_read := hand_read; h_write := hand_write |}.
